@@ -4,6 +4,7 @@
 import Jawk.Lemmas.ParseRender
 import Jawk.Model.Run
 import Jawk.Spec.Cache
+import Jawk.Props.Tables
 namespace Jawk.C13
 open Jawk Jawk.Spec
 
